@@ -692,8 +692,180 @@ let cmd_engine (ps : int) (script : string) : unit =
     | _ -> ()) (read_lines script);
   Printf.printf "done commits=%d exact=%d\n" !compared !exact
 
+(* ---------- model-side search: the engine model alone against the reference, over shape families ----------
+   The engine is validated page-for-page against the library on the histories the checks run; here it is run on its
+   own (two orders of magnitude faster) over exhaustive shape families and compared with the reference map. A hit is
+   only a candidate: the driver replays it on the library. *)
+let rec engine_dump (st : Engine.db) (root : coq_N) (fuel : int) : Spec.dump list =
+  if fuel <= 0 then [] else
+  match Engine.dget st.Engine.d_disk root with
+  | None -> [Spec.DKv (bytes_of_string "MISSING-PAGE", [])]
+  | Some a ->
+      (match a.Engine.ap_body with
+       | Engine.Branches es -> L.concat (L.map (fun (_, p) -> engine_dump st p (fuel - 1)) es)
+       | Engine.Leaves l -> L.map (fun e -> match e with
+           | Engine.LKv (k, v) -> Spec.DKv (k, v)
+           | Engine.LBk (k, r, n) -> Spec.DBk (k, n, engine_dump st r (fuel - 1))) l)
+let rec engine_runs (st : Engine.db) (root : coq_N) (fuel : int) : int list =
+  if fuel <= 0 then [] else
+  match Engine.dget st.Engine.d_disk root with
+  | None -> [-1]
+  | Some a ->
+      let own = L.init (int_of_n a.Engine.ap_over + 1) (fun i -> int_of_n root + i) in
+      own @ (match a.Engine.ap_body with
+             | Engine.Branches es -> L.concat (L.map (fun (_, p) -> engine_runs st p (fuel - 1)) es)
+             | Engine.Leaves l -> L.concat (L.map (fun e -> match e with Engine.LBk (_, r, _) -> engine_runs st r (fuel - 1) | _ -> []) l))
+let engine_partition_ok (st : Engine.db) : bool =
+  let reach = engine_runs st st.Engine.d_root 100000 in
+  let fl = L.init (int_of_n st.Engine.d_fln) (fun i -> int_of_n st.Engine.d_fl + i) in
+  let all = L.sort compare (reach @ fl @ L.map int_of_n st.Engine.d_flids) in
+  all = L.init (int_of_n st.Engine.d_np - 2) (fun i -> i + 2)
+
+let lk (i : int) (n : int) : string =
+  let pre = Printf.sprintf "k%03d" i in
+  if S.length pre >= n then pre else pre ^ S.make (n - S.length pre) 'x'
+let bs (s : string) : Byte.byte list = bytes_of_string s
+
+(* both machines driven by the same path-addressed operations *)
+type mop = MTouch of string list | MPut of string list * string * string | MDel of string list * string | MDelB of string list * string
+
+let apply_tx (eng : Engine.db) (spec : Spec.sdb) (txn : int) (ops : mop list) : (Engine.db, string) result * Spec.sdb =
+  (* reference: handles per path *)
+  let t = n_of_int txn in
+  let (sp, _) = Spec.step spec (Spec.CBegin (t, true)) in
+  let sp = ref sp in
+  let handles : (string list, int) Hashtbl.t = Hashtbl.create 16 in
+  Hashtbl.replace handles [] 0;
+  let nexth = ref 1 in
+  let rec handle path =
+    match Hashtbl.find_opt handles path with
+    | Some h -> Some h
+    | None ->
+        (match L.rev path with
+         | [] -> Some 0
+         | nm :: rparent ->
+             (match handle (L.rev rparent) with
+              | None -> None
+              | Some ph ->
+                  let h = !nexth in incr nexth;
+                  let (sp', r) = Spec.step !sp (Spec.COp (t, Spec.OGoc (n_of_int ph, bs nm, n_of_int h))) in
+                  sp := sp';
+                  (match r with Spec.ROk -> Hashtbl.replace handles path h; Some h | _ -> None))) in
+  let eops = ref [] in
+  L.iter (fun o ->
+    match o with
+    | MTouch p -> (match handle p with Some _ -> eops := !eops @ [Engine.Touch (L.map bs p)] | None -> ())
+    | MPut (p, k, v) ->
+        (match handle p with
+         | Some h ->
+             let (sp', r) = Spec.step !sp (Spec.COp (t, Spec.OPut (n_of_int h, bs k, bs v))) in
+             sp := sp';
+             (match r with Spec.ROpt _ -> eops := !eops @ [Engine.Put (L.map bs p, bs k, bs v)] | _ -> ())
+         | None -> ())
+    | MDel (p, k) ->
+        (match handle p with
+         | Some h ->
+             let (sp', r) = Spec.step !sp (Spec.COp (t, Spec.ODel (n_of_int h, bs k))) in
+             sp := sp';
+             (match r with Spec.ROpt _ -> eops := !eops @ [Engine.Del (L.map bs p, bs k)] | _ -> ())
+         | None -> ())
+    | MDelB (p, nm) ->
+        (match handle p with
+         | Some h ->
+             let (sp', r) = Spec.step !sp (Spec.COp (t, Spec.ODelB (n_of_int h, bs nm))) in
+             sp := sp';
+             (match r with
+              | Spec.ROk ->
+                  eops := !eops @ [Engine.DelB (L.map bs p, bs nm)];
+                  Hashtbl.filter_map_inplace (fun path h -> let pl = L.length p in
+                    if L.length path > pl && L.filteri (fun i _ -> i < pl) path = p && L.nth path pl = nm then None else Some h) handles
+              | _ -> ())
+         | None -> ())) ops;
+  let (sp', _) = Spec.step !sp (Spec.CCommit t) in
+  let er = match Engine.run_tx_auto eng !eops with
+    | Engine.Ok e -> Ok e
+    | Engine.Panic m -> Error ("panic: " ^ string_of_coq m)
+    | Engine.Err m -> Error ("error: " ^ string_of_coq m) in
+  (er, sp')
+
+let same_contents (e : Engine.db) (sp : Spec.sdb) : string option =
+  let c = sp.Spec.d_committed in
+  let want = S.concat "" (L.map fmt_dump (Spec.dump_of c)) in
+  let got = S.concat "" (L.map fmt_dump (engine_dump e e.Engine.d_root 100000)) in
+  if string_of_n (Spec.b_next c) <> string_of_n e.Engine.d_next then Some "root insertion counter differs"
+  else if want <> got then Some "contents differ from the reference"
+  else if not (engine_partition_ok e) then Some "pages are not partitioned into reachable / free-list run / free"
+  else None
+
+(* msearch subsets <P> <n> <keylen> <subs: i,j,..|-> <lo_mask> <hi_mask>  |  msearch ranges <P> <n> <keylen> <subs>
+   base: bucket "b" with keys lk(i) (one transaction each) and, in the transaction of key i for i in subs, a nested
+   bucket "k%03ds" holding one pair; then ONE transaction: [touch one nested bucket] + delete a subset / range of the keys
+   [+ insert before / middle / after]; compare with the reference *)
+let cmd_msearch (args : string list) : unit =
+  match args with
+  | kind :: ps :: n :: kl :: every :: rest ->
+      let p = int_of_string ps and n = int_of_string n and kl = int_of_string kl in
+      let subs = if every = "-" then [] else L.map int_of_string (S.split_on_char ',' every) in
+      let eng = ref (Engine.init_db (n_of_int p)) and spec = ref Spec.init_sdb and txn = ref 1 in
+      let step ops =
+        let (er, sp) = apply_tx !eng !spec !txn ops in
+        incr txn;
+        (match er with Ok e -> eng := e | Error m -> failwith ("base tree: " ^ m));
+        spec := sp in
+      step [MTouch ["b"]];
+      for i = 0 to n - 1 do
+        let ops = [MPut (["b"], lk i kl, unhex1 (Printf.sprintf "r8:%d" i))] @
+                  (if L.mem i subs then [MTouch ["b"; Printf.sprintf "k%03ds" i]; MPut (["b"; Printf.sprintf "k%03ds" i], "x", "y")] else []) in
+        step ops
+      done;
+      (match same_contents !eng !spec with Some m -> failwith ("base tree: " ^ m) | None -> ());
+      let base_e = !eng and base_s = !spec and base_t = !txn in
+      let cases = ref 0 and hits = ref 0 in
+      let try_case (descr : string) (dels : int list) (touch : int option) (touch_all : bool) (ins : string) =
+        incr cases;
+        let ops =
+          (if touch_all then L.map (fun j -> MTouch ["b"; Printf.sprintf "k%03ds" j]) subs else []) @
+          (match touch with Some j -> [MPut (["b"; Printf.sprintf "k%03ds" j], "t", "u")] | None -> []) @
+          L.map (fun i -> MDel (["b"], lk i kl)) dels @
+          (match ins with
+           | "before" -> [MPut (["b"], "a", "v")] | "middle" -> [MPut (["b"], Printf.sprintf "k%03dm" (n / 2), "v")]
+           | "after" -> [MPut (["b"], "z", "v")] | _ -> []) in
+        let (er, sp) = apply_tx base_e base_s base_t ops in
+        match er with
+        | Error m -> incr hits; if !hits <= 20 then Printf.printf "HIT %s :: model %s\n" descr m
+        | Ok e ->
+            (match same_contents e sp with
+             | Some m -> incr hits; if !hits <= 20 then Printf.printf "HIT %s :: %s\n" descr m
+             | None -> ()) in
+      let touches = None :: L.map (fun j -> Some j) subs in
+      (match kind, rest with
+       | "subsets", [lo; hi] ->
+           for m = int_of_string lo to int_of_string hi - 1 do
+             let dels = L.filter (fun i -> (m lsr i) land 1 = 1) (L.init n (fun i -> i)) in
+             L.iter (fun tch ->
+               L.iter (fun ins ->
+                 try_case (Printf.sprintf "subsets n=%d kl=%d subs=%s mask=%x touch=%s ins=%s" n kl every m
+                             (match tch with Some j -> string_of_int j | None -> "None") ins) dels tch false ins)
+                 ["none"; "before"; "middle"; "after"]) touches
+           done
+       | "ranges", _ ->
+           for lo = 0 to n - 1 do
+             for hi = lo + 1 to n do
+               let dels = L.init (hi - lo) (fun i -> lo + i) in
+               L.iter (fun tch ->
+                 try_case (Printf.sprintf "ranges n=%d kl=%d subs=%s del=[%d,%d) touch=%s all=0" n kl every lo hi
+                             (match tch with Some j -> string_of_int j | None -> "None")) dels tch false "none";
+                 try_case (Printf.sprintf "ranges n=%d kl=%d subs=%s del=[%d,%d) touch=%s all=1" n kl every lo hi
+                             (match tch with Some j -> string_of_int j | None -> "None")) dels tch true "none") touches
+             done
+           done
+       | _ -> prerr_endline "msearch: bad family");
+      Printf.printf "done cases=%d hits=%d\n" !cases !hits
+  | _ -> prerr_endline "usage: monitor msearch subsets|ranges <P> <n> <keylen> <every> [lo hi]"
+
 let () =
   match Array.to_list Sys.argv with
+  | _ :: "msearch" :: args -> cmd_msearch args
   | _ :: "engine" :: ps :: script :: _ -> cmd_engine (int_of_string ps) script
   | _ :: "api" :: _ -> cmd_api ()
   | _ :: "spec" :: hist :: fout :: eout :: _ -> cmd_spec hist fout eout
